@@ -23,7 +23,12 @@ impl SrcSpec {
             let k = (i - self.prefix.len()) as u64;
             let mut z = k.wrapping_add(self.salt).wrapping_mul(0x9e3779b97f4a7c15);
             z = (z ^ (z >> 29)).wrapping_mul(0xbf58476d1ce4e5b9);
-            ((z >> 32) as u8) | 1
+            let b = (z >> 32) as u8;
+            if b == 0 {
+                0xA7
+            } else {
+                b
+            }
         }
     }
     pub fn bytes(&self, from: usize, n: usize) -> Vec<u8> {
